@@ -154,7 +154,11 @@ func init() {
 
 // wafHandle bundles a WAF with the observers attached to it.
 type wafHandle struct {
-	WAF      coraza.WAF
+	// Concurrent: the handle is shared by simulated tasks; the observers that
+	// are not task-safe (error callback list, debug buffer, recording writer)
+	// are switched off so that the harness itself cannot race.
+	Concurrent bool
+	WAF        coraza.WAF
 	ErrCB    []cbRec      // error callback invocations
 	DebugBuf bytes.Buffer // debug log at Error level
 	Rec      *recWriter   // non-nil when the configuration uses SecAuditLogType verifrec
@@ -189,6 +193,9 @@ func buildWAF(directives string) (h *wafHandle, err error) {
 	cfg := coraza.NewWAFConfig().
 		WithDirectives(directives).
 		WithErrorCallback(func(mr types.MatchedRule) {
+			if h.Concurrent {
+				return
+			}
 			h.ErrCB = append(h.ErrCB, cbRec{TxID: mr.TransactionID(), RuleID: mr.Rule().ID()})
 		}).
 		WithDebugLogger(debuglog.Default().WithOutput(&h.DebugBuf).WithLevel(debugLevel))
